@@ -301,7 +301,7 @@ Lemma exec_add es : forall H L, exists H', exec false es H L = (H', L ++ es, Non
   (forall o c, cntH H' o c = cntH H o c + ecnt o c es) /\ (posH H -> posH H').
 Proof.
   induction es as [|e es IH]; intros H L; cbn [exec].
-  - exists H. rewrite app_nil_r. repeat split; auto. intros; cbn; lia.
+  - exists H. rewrite app_nil_r. repeat split; auto; intros; cbn; lia.
   - destruct (do_add e H) as (H1 & -> & C1 & P1).
     destruct (IH H1 (L ++ [e])) as (H2 & -> & C2 & P2). exists H2.
     rewrite <- app_assoc. repeat split; auto. intros o c. rewrite C2, C1. cbn. lia.
@@ -314,15 +314,15 @@ Lemma exec_rm es : forall H L H' L' e, posH H -> exec true es H L = (H', L', e) 
 Proof.
   induction es as [|a es IH]; intros H L H' L' e P E; cbn [exec] in E.
   - inversion E; subst. split; [exact P|]. exists []. rewrite app_nil_r.
-    repeat split; auto; [intros; cbn; lia|discriminate].
+    split; [reflexivity|]. split; [intros; cbn; lia|]. split; [reflexivity|discriminate].
   - destruct (do_entry true a H) as [H1|x] eqn:D.
     + destruct (do_rem_ok _ _ _ D) as [C1 P1].
       destruct (IH _ _ _ _ _ (P1 P) E) as (P2 & done & -> & C2 & N & X).
-      split; [exact P2|]. exists (a :: done). rewrite <- app_assoc. repeat split; auto.
-      * intros o c. rewrite C1, C2. cbn. lia.
-      * intros ->. rewrite N; reflexivity.
+      split; [exact P2|]. exists (a :: done). rewrite <- app_assoc.
+      split; [reflexivity|]. split; [intros o c; rewrite C1, C2; cbn; lia|].
+      split; [intros ->; rewrite N; reflexivity|exact X].
     + inversion E; subst. split; [exact P|]. exists []. rewrite app_nil_r.
-      repeat split; auto; [intros; cbn; lia|discriminate|].
+      split; [reflexivity|]. split; [intros; cbn; lia|]. split; [discriminate|].
       intros y [= <-]. apply (do_rem_err _ _ _ P D).
 Qed.
 
@@ -344,4 +344,566 @@ Lemma undo_exec rm es : forall H L0,
 Proof.
   induction es as [|a es IH]; intros H L0; cbn [undo exec]; [reflexivity|].
   destruct (do_entry (negb rm) a H) as [H1|x]; [apply IH|reflexivity].
+Qed.
+
+(* ------------------------------------------------------------------ one outermost walk *)
+Definition pcnt (h : heap) (k : key) (rm : bool) (g : graph) (x : oid) (o : obsv) (c : ckey) : nat :=
+  ecnt o c (fst (plan h k rm g x)).
+
+Definition shifted (rm : bool) (H H' : hooks) (d : obsv -> ckey -> nat) : Prop :=
+  forall o c, if rm then cntH H o c = cntH H' o c + d o c else cntH H' o c = cntH H o c + d o c.
+Definition same_counts (H H' : hooks) : Prop := forall o c, cntH H' o c = cntH H o c.
+
+(* undoing a log whose entries are all accounted for in the current state *)
+Lemma undo_restores rm L H1 : posH H1 ->
+  (rm = false -> forall o c, ecnt o c L <= cntH H1 o c) ->
+  exists H2, undo rm (rev L) H1 = (H2, None) /\ posH H2 /\
+    forall o c, if rm then cntH H2 o c = cntH H1 o c + ecnt o c L
+                else cntH H1 o c = cntH H2 o c + ecnt o c L.
+Proof.
+  intros P C. rewrite (undo_exec rm (rev L) H1 []). destruct rm; cbn [negb].
+  - destruct (exec_add (rev L) H1 []) as (H2 & -> & C2 & P2). exists H2.
+    split; [reflexivity|]. split; [auto|]. intros o c. rewrite C2, ecnt_rev. reflexivity.
+  - destruct (exec_rm_succeeds (rev L) H1 [] P) as [H2 E2].
+    { intros o c. rewrite ecnt_rev. apply C. reflexivity. }
+    rewrite E2. destruct (exec_rm _ _ _ _ _ _ P E2) as (P2 & done & Ld & C2 & N & _).
+    exists H2. split; [reflexivity|]. split; [exact P2|].
+    intros o c. rewrite (N eq_refl) in C2. rewrite C2, ecnt_rev. reflexivity.
+Qed.
+
+Lemma walk_outer_spec h k rm g x H H' e : posH H -> walk_outer h k rm g x H = (H', e) ->
+  posH H' /\
+  match e with
+  | None => snd (plan h k rm g x) = false /\ shifted rm H H' (pcnt h k rm g x)
+  | Some y => same_counts H H' /\
+              ((y = ValueError /\ snd (plan h k rm g x) = true) \/ (y = NotifierNotFound /\ rm = true))
+  end.
+Proof.
+  intros P. unfold walk_outer, pcnt, shifted, same_counts.
+  destruct (plan h k rm g x) as [es sf]. cbn [fst snd]. destruct rm.
+  - destruct (exec true es H []) as [[H1 L] e0] eqn:E.
+    destruct (exec_rm _ _ _ _ _ _ P E) as (P1 & done & Ld & C1 & N & X). cbn [app] in Ld. subst L.
+    destruct (undo_restores true done H1 P1) as (H2 & U & P2 & C2); [discriminate|].
+    destruct e0 as [y|].
+    + rewrite U. intros W. inversion W; subst. split; [exact P2|]. split.
+      * intros o c. rewrite C2, C1. reflexivity.
+      * right. split; [apply X; reflexivity|reflexivity].
+    + rewrite (N eq_refl) in *. destruct sf.
+      * rewrite U. intros W. inversion W; subst. split; [exact P2|]. split.
+        -- intros o c. rewrite C2, C1. reflexivity.
+        -- left. split; reflexivity.
+      * intros W. inversion W; subst. split; [exact P1|]. split; [reflexivity|exact C1].
+  - destruct (exec_add es H []) as (H1 & -> & C1 & P1). cbn [app]. destruct sf.
+    + destruct (undo_restores false es H1 (P1 P)) as (H2 & U & P2 & C2).
+      { intros _ o c. rewrite C1. lia. }
+      rewrite U. intros W. inversion W; subst. split; [exact P2|]. split.
+      * intros o c. specialize (C2 o c). rewrite C1 in C2. lia.
+      * left. split; reflexivity.
+    + intros W. inversion W; subst. split; [auto|]. split; [reflexivity|exact C1].
+Qed.
+
+(* ------------------------------------------------------------------ removal plan = registration plan, as multisets *)
+Lemma pseq_snd p q : snd (pseq p q) = snd p || snd q.
+Proof. destruct p as [l [|]]; reflexivity. Qed.
+Lemma pseq_ecnt o c p q : snd p = false -> ecnt o c (fst (pseq p q)) = ecnt o c (fst p) + ecnt o c (fst q).
+Proof. destruct p as [l [|]]; cbn; [discriminate|]. intros _. apply ecnt_app. Qed.
+
+Definition pleq (o : obsv) (c : ckey) (p q : pl) : Prop :=
+  snd p = snd q /\ (snd q = false -> ecnt o c (fst p) = ecnt o c (fst q)).
+Lemma pleq_refl o c p : pleq o c p p.
+Proof. split; auto. Qed.
+Lemma pleq_pseq o c p p' q q' : pleq o c p p' -> pleq o c q q' -> pleq o c (pseq p q) (pseq p' q').
+Proof.
+  intros [F1 E1] [F2 E2]. split.
+  - rewrite !pseq_snd. congruence.
+  - rewrite pseq_snd. intros F. apply orb_false_iff in F. destruct F as [Fa Fb].
+    rewrite !pseq_ecnt by congruence. rewrite E1, E2 by assumption. reflexivity.
+Qed.
+Lemma pleq_pl_all {A} o c (f g : A -> pl) l :
+  (forall a, In a l -> pleq o c (f a) (g a)) -> pleq o c (pl_all f l) (pl_all g l).
+Proof.
+  induction l as [|a l IH]; intros Hl; [apply pleq_refl|].
+  change (pl_all f (a :: l)) with (pseq (f a) (pl_all f l)).
+  change (pl_all g (a :: l)) with (pseq (g a) (pl_all g l)).
+  apply pleq_pseq; [apply Hl; left; reflexivity|apply IH; intros; apply Hl; right; assumption].
+Qed.
+Lemma pleq_four o c s1 s2 s3 s3' s4 :
+  pleq o c s3 s3' -> pleq o c (pseq s4 (pseq s3 (pseq s2 s1))) (pseq s1 (pseq s2 (pseq s3' s4))).
+Proof.
+  intros [F E]. split.
+  - rewrite !pseq_snd, F. destruct (snd s1), (snd s2), (snd s3'), (snd s4); reflexivity.
+  - rewrite !pseq_snd. intros Q.
+    destruct (snd s1) eqn:Q1; [discriminate|]. destruct (snd s2) eqn:Q2; [discriminate|].
+    destruct (snd s3') eqn:Q3; [discriminate|]. destruct (snd s4) eqn:Q4; [discriminate|].
+    rewrite !pseq_ecnt; rewrite ?pseq_snd, ?F, ?Q1, ?Q2, ?Q3, ?Q4; try reflexivity.
+    rewrite (E eq_refl). lia.
+Qed.
+
+Lemma plan_rm_equiv h k o c g : forall x, pleq o c (plan h k true g x) (plan h k false g x).
+Proof.
+  induction g as [n cs IH] using graph_ind'. intros x. cbn [plan].
+  apply pleq_four. apply pleq_pl_all. intros ch Hc.
+  destruct (objects h n x) as [ys|]; [|apply pleq_refl].
+  apply pleq_pl_all. intros y _. rewrite Forall_forall in IH. apply (IH ch Hc y).
+Qed.
+
+Lemma plan_rm_flag h k g x : snd (plan h k true g x) = snd (plan h k false g x).
+Proof. apply (plan_rm_equiv h k (0, 0) (CF 0) g x). Qed.
+Lemma plan_rm_cnt h k g x o c : snd (plan h k false g x) = false ->
+  pcnt h k true g x o c = pcnt h k false g x o c.
+Proof. intros F. apply (plan_rm_equiv h k o c g x). exact F. Qed.
+
+(* ------------------------------------------------------------------ apply_observers *)
+Fixpoint gsum (h : heap) (k : key) (gs : list graph) (x : oid) (o : obsv) (c : ckey) : nat :=
+  match gs with [] => 0 | g :: r => pcnt h k false g x o c + gsum h k r x o c end.
+
+Lemma walk_outer_add_succeeds h k g x H : posH H -> snd (plan h k false g x) = false ->
+  exists H', walk_outer h k false g x H = (H', None).
+Proof.
+  intros P F. destruct (walk_outer h k false g x H) as [H' [y|]] eqn:W; [|eauto].
+  destruct (walk_outer_spec _ _ _ _ _ _ _ _ P W) as [_ [_ [[_ T]|[_ T]]]]; congruence.
+Qed.
+Lemma walk_outer_rm_succeeds h k g x H : posH H -> snd (plan h k true g x) = false ->
+  (forall o c, pcnt h k true g x o c <= cntH H o c) ->
+  exists H', walk_outer h k true g x H = (H', None).
+Proof.
+  intros P F C. unfold walk_outer, pcnt in *. destruct (plan h k true g x) as [es sf]. cbn [fst snd] in *.
+  subst sf. destruct (exec_rm_succeeds es H [] P C) as [H1 ->]. eauto.
+Qed.
+
+Lemma reapply_restores h k rm x : forall applied H0 H1, posH H1 ->
+  (forall g, In g applied -> snd (plan h k false g x) = false) ->
+  shifted rm H0 H1 (gsum h k applied x) ->
+  exists H2, reapply h k (negb rm) applied x H1 = (H2, None) /\ posH H2 /\ same_counts H0 H2.
+Proof.
+  induction applied as [|g r IH]; intros H0 H1 P F S; cbn [reapply].
+  - exists H1. split; [reflexivity|]. split; [exact P|]. intros o c. specialize (S o c).
+    cbn [gsum] in S. destruct rm; lia.
+  - assert (snd (plan h k false g x) = false) as Fg by (apply F; left; reflexivity).
+    destruct rm; cbn [negb].
+    + destruct (walk_outer_add_succeeds h k g x H1 P Fg) as [H1' W]. rewrite W.
+      destruct (walk_outer_spec _ _ _ _ _ _ _ _ P W) as [P' [_ S']].
+      apply (IH H0 H1' P'); [intros; apply F; right; assumption|].
+      intros o c. specialize (S o c). specialize (S' o c). cbn [gsum] in S. cbn beta iota in *. lia.
+    + destruct (walk_outer_rm_succeeds h k g x H1 P) as [H1' W].
+      { rewrite plan_rm_flag. exact Fg. }
+      { intros o c. rewrite (plan_rm_cnt _ _ _ _ _ _ Fg). specialize (S o c). cbn [gsum] in S.
+        cbn beta iota in S. lia. }
+      rewrite W. destruct (walk_outer_spec _ _ _ _ _ _ _ _ P W) as [P' [_ S']].
+      apply (IH H0 H1' P'); [intros; apply F; right; assumption|].
+      intros o c. specialize (S o c). specialize (S' o c). rewrite (plan_rm_cnt _ _ _ _ _ _ Fg) in S'.
+      cbn [gsum] in S. cbn beta iota in *. lia.
+Qed.
+
+(* where an exception of a registration call comes from: ValueError from a node that does not apply
+   (iter_observables / iter_objects), NotifierNotFound from remove_from during a removal *)
+Definition exn_ok (h : heap) (k : key) (rm : bool) (x : oid) (gs : list graph) (y : exn) : Prop :=
+  (y = ValueError /\ exists g, In g gs /\ snd (plan h k false g x) = true)
+  \/ (y = NotifierNotFound /\ rm = true).
+
+Lemma apply_loop_spec h k rm x : forall gs H applied H0 H' e, posH H ->
+  (forall g, In g applied -> snd (plan h k false g x) = false) ->
+  shifted rm H0 H (gsum h k applied x) ->
+  apply_loop h k rm gs x H applied = (H', e) ->
+  posH H' /\
+  match e with
+  | None => shifted rm H0 H' (fun o c => gsum h k applied x o c + gsum h k gs x o c)
+            /\ (forall g, In g gs -> snd (plan h k false g x) = false)
+  | Some y => same_counts H0 H' /\ exn_ok h k rm x gs y
+  end.
+Proof.
+  induction gs as [|g gs IH]; intros H applied H0 H' e P F S A; cbn [apply_loop] in A.
+  - inversion A; subst. split; [exact P|]. split; [|intros g []].
+    intros o c. specialize (S o c). cbn [gsum]. destruct rm; lia.
+  - destruct (walk_outer h k rm g x H) as [H1 [y|]] eqn:W.
+    + destruct (walk_outer_spec _ _ _ _ _ _ _ _ P W) as [P1 [S1 X1]].
+      destruct (reapply_restores h k rm x applied H0 H1 P1 F) as (H2 & R & P2 & S2).
+      { intros o c. specialize (S o c). specialize (S1 o c). destruct rm; lia. }
+      rewrite R in A. inversion A; subst. split; [exact P2|]. split; [exact S2|].
+      destruct X1 as [[-> T]|[-> ->]]; [left; split; [reflexivity|]|right; split; reflexivity].
+      exists g. split; [left; reflexivity|]. destruct rm; [rewrite <- plan_rm_flag|]; exact T.
+    + destruct (walk_outer_spec _ _ _ _ _ _ _ _ P W) as [P1 [F1 S1]].
+      assert (snd (plan h k false g x) = false) as Fg.
+      { destruct rm; [rewrite <- plan_rm_flag|]; exact F1. }
+      assert (forall o c, pcnt h k rm g x o c = pcnt h k false g x o c) as Q.
+      { intros o c. destruct rm; [apply plan_rm_cnt; exact Fg|reflexivity]. }
+      destruct (IH H1 (g :: applied) H0 H' e P1) as [P' R]; [| |exact A|].
+      * intros g' [<-|Hg]; [exact Fg|apply F; exact Hg].
+      * intros o c. specialize (S o c). specialize (S1 o c). rewrite Q in S1. cbn [gsum].
+        destruct rm; lia.
+      * split; [exact P'|]. destruct e as [y|].
+        { destruct R as [R1 [[-> (g' & Hg' & T)]|R2]]; (split; [exact R1|]); [left|right; exact R2].
+          split; [reflexivity|]. exists g'. split; [right; exact Hg'|exact T]. }
+        destruct R as [R1 R2]. split.
+        -- intros o c. specialize (R1 o c). cbn [gsum] in *. destruct rm; lia.
+        -- intros g' [<-|Hg]; [exact Fg|apply R2; exact Hg].
+Qed.
+
+Lemma apply_observers_spec h k rm gs x H H' e : posH H -> apply_observers h k rm gs x H = (H', e) ->
+  posH H' /\
+  match e with
+  | None => shifted rm H H' (gsum h k gs x) /\ (forall g, In g gs -> snd (plan h k false g x) = false)
+  | Some y => same_counts H H' /\ exn_ok h k rm x gs y
+  end.
+Proof.
+  intros P A. unfold apply_observers in A.
+  destruct (apply_loop_spec h k rm x gs H [] H H' e P) as [P' R]; [intros g []| |exact A|].
+  - intros o c. cbn [gsum]. destruct rm; lia.
+  - split; [exact P'|]. destruct e; [exact R|]. destruct R as [R1 R2]. split; [|exact R2].
+    intros o c. specialize (R1 o c). cbn [gsum] in R1. destruct rm; lia.
+Qed.
+
+(* ------------------------------------------------------------------ histories *)
+Definition rsig := (oid * nat * nat * list graph)%type.
+Definition sig_cnt (h : heap) (s : rsig) (o : obsv) (c : ckey) : nat :=
+  let '(x, hd, dp, gs) := s in gsum h (hd, x, dp) gs x o c.
+Fixpoint sigs_cnt (h : heap) (l : list rsig) (o : obsv) (c : ckey) : nat :=
+  match l with [] => 0 | s :: r => sig_cnt h s o c + sigs_cnt h r o c end.
+
+(* the successful registrations / removals of a trace *)
+Fixpoint ok_regs (tr : list (op * obs)) : list rsig :=
+  match tr with
+  | [] => []
+  | (Register x hd dp gs, ob) :: r =>
+      match o_out ob with None => (x, hd, dp, gs) :: ok_regs r | Some _ => ok_regs r end
+  | _ :: r => ok_regs r
+  end.
+Fixpoint ok_unregs (tr : list (op * obs)) : list rsig :=
+  match tr with
+  | [] => []
+  | (Unregister x hd dp gs, ob) :: r =>
+      match o_out ob with None => (x, hd, dp, gs) :: ok_unregs r | Some _ => ok_unregs r end
+  | _ :: r => ok_unregs r
+  end.
+
+Lemma step_spec h s o s' ob : posH (st_hooks s) -> step h s o = (s', ob) ->
+  posH (st_hooks s') /\
+  match o with
+  | Register x hd dp gs =>
+      match o_out ob with
+      | None => shifted false (st_hooks s) (st_hooks s') (gsum h (hd, x, dp) gs x)
+      | Some y => same_counts (st_hooks s) (st_hooks s') /\ exn_ok h (hd, x, dp) false x gs y
+      end
+  | Unregister x hd dp gs =>
+      match o_out ob with
+      | None => shifted true (st_hooks s) (st_hooks s') (gsum h (hd, x, dp) gs x)
+      | Some y => same_counts (st_hooks s) (st_hooks s') /\ exn_ok h (hd, x, dp) true x gs y
+      end
+  | _ => st_hooks s' = st_hooks s /\ o_out ob = None
+  end.
+Proof.
+  intros P S. destruct o as [x hd dp gs|x hd dp gs|o f|hd|t]; cbn [step] in S.
+  - destruct (apply_observers h (hd, x, dp) false gs x (st_hooks s)) as [H e] eqn:A.
+    inversion S; subst. cbn [st_hooks o_out].
+    destruct (apply_observers_spec _ _ _ _ _ _ _ _ P A) as [P' R]. split; [exact P'|].
+    destruct e; [exact R|apply R].
+  - destruct (apply_observers h (hd, x, dp) true gs x (st_hooks s)) as [H e] eqn:A.
+    inversion S; subst. cbn [st_hooks o_out].
+    destruct (apply_observers_spec _ _ _ _ _ _ _ _ P A) as [P' R]. split; [exact P'|].
+    destruct e; [exact R|apply R].
+  - inversion S; subst. auto.
+  - inversion S; subst. auto.
+  - inversion S; subst. auto.
+Qed.
+
+(* the accounting equation: at every moment, every count of every notifier list is the initial
+   count plus what the successful registrations planned minus what the successful removals planned *)
+Lemma accounting h : forall ops s tr s', posH (st_hooks s) -> run h s ops = (tr, s') ->
+  posH (st_hooks s') /\
+  forall o c, cntH (st_hooks s') o c + sigs_cnt h (ok_unregs tr) o c
+              = cntH (st_hooks s) o c + sigs_cnt h (ok_regs tr) o c.
+Proof.
+  induction ops as [|o ops IH]; intros s tr s' P R; cbn [run] in R.
+  - inversion R; subst. split; [exact P|]. intros; cbn; lia.
+  - destruct (step h s o) as [s1 ob] eqn:S. destruct (run h s1 ops) as [tr1 s2] eqn:R1.
+    inversion R; subst. destruct (step_spec _ _ _ _ _ P S) as [P1 Q].
+    destruct (IH _ _ _ P1 R1) as [P2 E]. split; [exact P2|]. intros o' c. specialize (E o' c).
+    destruct o as [x hd dp gs|x hd dp gs|o f|hd|t]; cbn [ok_regs ok_unregs].
+    + destruct (o_out ob); cbn [sigs_cnt sig_cnt].
+      * destruct Q as [Q _]. rewrite <- (Q o' c). exact E.
+      * specialize (Q o' c). cbn beta iota in Q. lia.
+    + destruct (o_out ob); cbn [sigs_cnt sig_cnt].
+      * destruct Q as [Q _]. rewrite <- (Q o' c). exact E.
+      * specialize (Q o' c). cbn beta iota in Q. lia.
+    + destruct Q as [<- _]. exact E.
+    + destruct Q as [<- _]. exact E.
+    + destruct Q as [<- _]. exact E.
+Qed.
+
+Lemma sigs_cnt_perm h l1 l2 : Permutation l1 l2 -> forall o c, sigs_cnt h l1 o c = sigs_cnt h l2 o c.
+Proof. induction 1; intros o c; cbn [sigs_cnt]; try rewrite IHPermutation; try lia. congruence. Qed.
+
+(* n registrations and n removals, interleaved in any way with anything else that is balanced too:
+   every count of every list is back to its initial value *)
+Lemma balanced_identity h ops s tr s' : posH (st_hooks s) -> run h s ops = (tr, s') ->
+  Permutation (ok_regs tr) (ok_unregs tr) ->
+  forall o c, cntH (st_hooks s') o c = cntH (st_hooks s) o c.
+Proof.
+  intros P R B o c. destruct (accounting h ops s tr s' P R) as [_ E]. specialize (E o c).
+  rewrite (sigs_cnt_perm h _ _ B o c) in E. lia.
+Qed.
+
+(* failure atomicity, at any depth and across parallel graphs *)
+Lemma failure_atomic_cnt h s o s' ob : posH (st_hooks s) -> step h s o = (s', ob) ->
+  o_out ob <> None -> forall o' c, cntH (st_hooks s') o' c = cntH (st_hooks s) o' c.
+Proof.
+  intros P S N. destruct (step_spec _ _ _ _ _ P S) as [_ Q].
+  destruct o as [x hd dp gs|x hd dp gs|o f|hd|t].
+  - destruct (o_out ob); [apply Q|congruence].
+  - destruct (o_out ob); [apply Q|congruence].
+  - destruct Q; congruence.
+  - destruct Q; congruence.
+  - destruct Q; congruence.
+Qed.
+
+(* a removal of something that is not (completely) there raises and changes nothing *)
+Lemma extra_unregister h s x hd dp gs s' ob : posH (st_hooks s) ->
+  (exists o c, cntH (st_hooks s) o c < gsum h (hd, x, dp) gs x o c) ->
+  step h s (Unregister x hd dp gs) = (s', ob) ->
+  (exists y, o_out ob = Some y /\
+             ((forall g, In g gs -> snd (plan h (hd, x, dp) false g x) = false) -> y = NotifierNotFound))
+  /\ forall o c, cntH (st_hooks s') o c = cntH (st_hooks s) o c.
+Proof.
+  intros P (o & c & Lt) S. destruct (step_spec _ _ _ _ _ P S) as [_ Q]. cbn beta iota in Q.
+  destruct (o_out ob) as [y|].
+  - destruct Q as [Q X]. split; [|exact Q]. exists y. split; [reflexivity|].
+    intros F. destruct X as [[-> (g & Hg & T)]|[-> _]]; [|reflexivity]. rewrite (F g Hg) in T. discriminate.
+  - specialize (Q o c). cbn beta iota in Q. lia.
+Qed.
+
+(* ------------------------------------------------------------------ weak references *)
+Lemma memb_spec x l : memb x l = true <-> In x l.
+Proof.
+  unfold memb. rewrite existsb_exists. split.
+  - intros (y & Hy & E). apply Nat.eqb_eq in E. subst. exact Hy.
+  - intros Hx. exists x. split; [exact Hx|apply Nat.eqb_refl].
+Qed.
+Lemma calls_only_alive s l k : In k (calls_of s l) -> alive s k = true.
+Proof.
+  unfold calls_of. rewrite in_flat_map. intros (n & _ & Hk).
+  destruct n as [k' rc| |]; try destruct Hk. destruct (alive s k') eqn:A; [|destruct Hk].
+  destruct Hk as [<-|[]]. exact A.
+Qed.
+Lemma step_dead_mono h s o s' ob k : step h s o = (s', ob) -> alive s k = false -> alive s' k = false.
+Proof.
+  intros S A. unfold alive in *.
+  destruct o as [x hd dp gs|x hd dp gs|o f|hd|t]; cbn [step] in S.
+  - destruct (apply_observers _ _ _ _ _ _). inversion S; subst. exact A.
+  - destruct (apply_observers _ _ _ _ _ _). inversion S; subst. exact A.
+  - inversion S; subst. exact A.
+  - inversion S; subst. cbn [dead_handlers dead_objs memb existsb] in *.
+    apply andb_false_iff in A. apply andb_false_iff. destruct A as [A|A]; [left|right; exact A].
+    apply negb_false_iff in A. apply negb_false_iff. fold (memb (k_handler k) (dead_handlers s)).
+    rewrite A. apply orb_true_r.
+  - inversion S; subst. cbn [dead_handlers dead_objs memb existsb] in *.
+    apply andb_false_iff in A. apply andb_false_iff. destruct A as [A|A]; [left; exact A|right].
+    apply negb_false_iff in A. apply negb_false_iff. fold (memb (k_target k) (dead_objs s)).
+    rewrite A. apply orb_true_r.
+Qed.
+Lemma collect_kills h s o s' ob : step h s o = (s', ob) ->
+  match o with
+  | CollectOwner hd => forall t dp, alive s' (hd, t, dp) = false
+  | CollectObj t => forall hd dp, alive s' (hd, t, dp) = false
+  | _ => True
+  end.
+Proof.
+  intros S. destruct o; try exact I; cbn [step] in S; inversion S; subst; intros; unfold alive;
+    cbn [dead_handlers dead_objs k_handler k_target fst snd memb existsb]; rewrite Nat.eqb_refl; cbn.
+  - reflexivity.
+  - apply andb_false_r.
+Qed.
+Lemma dead_silent h : forall ops s tr s' k, run h s ops = (tr, s') -> alive s k = false ->
+  alive s' k = false /\
+  forall o f ob, In (Change o f, ob) tr -> ~ In k (o_calls ob) /\ o_out ob = None.
+Proof.
+  induction ops as [|o ops IH]; intros s tr s' k R A; cbn [run] in R.
+  - inversion R; subst. split; [exact A|]. intros ? ? ? [].
+  - destruct (step h s o) as [s1 ob] eqn:S. destruct (run h s1 ops) as [tr1 s2] eqn:R1.
+    inversion R; subst. pose proof (step_dead_mono _ _ _ _ _ k S A) as A1.
+    destruct (IH _ _ _ k R1 A1) as [A2 Q]. split; [exact A2|].
+    intros o' f ob' [E|Hin]; [|apply (Q _ _ _ Hin)].
+    inversion E; subst. cbn [step] in S. inversion S; subst. cbn [o_calls o_out]. split; [|reflexivity].
+    intros Hk. apply calls_only_alive in Hk. congruence.
+Qed.
+
+(* ------------------------------------------------------------------ at most one user notifier per identity *)
+Definition uniqH (H : hooks) : Prop := forall o, uniqb (H o) = true.
+
+Lemma bump_keys k l : forall l', bump_first (AUser k) l = Some l' ->
+  forall b, existsb (matches b) l' = existsb (matches b) l.
+Proof.
+  induction l as [|n r IH]; intros l' E b; [discriminate|]. cbn [bump_first] in E.
+  destruct (matches (AUser k) n) eqn:M.
+  - destruct n; try discriminate M. inversion E; subst. reflexivity.
+  - destruct (bump_first (AUser k) r) as [r'|]; [|discriminate]. inversion E; subst.
+    cbn [existsb]. rewrite (IH r' eq_refl b). reflexivity.
+Qed.
+Lemma uniqb_bump k l : forall l', bump_first (AUser k) l = Some l' -> uniqb l = true -> uniqb l' = true.
+Proof.
+  induction l as [|n r IH]; intros l' E U; [discriminate|]. cbn [bump_first] in E.
+  cbn [uniqb] in U. apply andb_true_iff in U. destruct U as [Un Ur].
+  destruct (matches (AUser k) n) eqn:M.
+  - destruct n; try discriminate M. inversion E; subst. cbn [uniqb]. rewrite Un, Ur. reflexivity.
+  - destruct (bump_first (AUser k) r) as [r'|] eqn:B; [|discriminate]. inversion E; subst.
+    cbn [uniqb]. rewrite (IH r' eq_refl Ur), andb_true_r.
+    destruct n; try reflexivity. rewrite (bump_keys _ _ _ B). exact Un.
+Qed.
+Lemma key_eqb_sym a b : key_eqb a b = key_eqb b a.
+Proof.
+  destruct (key_eqb a b) eqn:E; symmetry.
+  - apply key_eqb_spec in E. subst. apply key_eqb_spec. reflexivity.
+  - destruct (key_eqb b a) eqn:F; [|reflexivity]. apply key_eqb_spec in F. subst.
+    assert (key_eqb a a = true) by (apply key_eqb_spec; reflexivity). congruence.
+Qed.
+Lemma uniqb_snoc l n : uniqb l = true ->
+  (forall k rc, n = NUser k rc -> existsb (matches (AUser k)) l = false) -> uniqb (l ++ [n]) = true.
+Proof.
+  induction l as [|m r IH]; intros U F.
+  - cbn. destruct n; reflexivity.
+  - cbn [uniqb app] in *. apply andb_true_iff in U. destruct U as [Um Ur].
+    rewrite IH; [|exact Ur|]. 
+    + rewrite andb_true_r. destruct m as [k' rc'| |]; try reflexivity.
+      rewrite existsb_app. apply negb_true_iff in Um. rewrite Um. cbn [existsb orb].
+      destruct n as [k rc| |]; try reflexivity. cbn [matches]. rewrite orb_false_r.
+      specialize (F k rc eq_refl). cbn [existsb matches] in F. apply orb_false_iff in F.
+      destruct F as [F _]. rewrite key_eqb_sym, F. reflexivity.
+    + intros k rc E. specialize (F k rc E). cbn [existsb] in F. apply orb_false_iff in F. apply F.
+Qed.
+Lemma bump_none_exists k l : bump_first (AUser k) l = None -> existsb (matches (AUser k)) l = false.
+Proof.
+  intros B. destruct (existsb (matches (AUser k)) l) eqn:E; [|reflexivity].
+  apply existsb_exists in E. destruct E as (n & Hn & M). rewrite (bump_first_none _ _ B n Hn) in M. discriminate.
+Qed.
+Lemma uniqb_l_add a l : uniqb l = true -> uniqb (l_add a l) = true.
+Proof.
+  intros U. destruct a as [k|m g k]; cbn [l_add].
+  - destruct (bump_first (AUser k) l) as [l'|] eqn:B; [apply (uniqb_bump _ _ _ B U)|].
+    apply uniqb_snoc; [exact U|]. intros k' rc [= <- <-]. apply (bump_none_exists _ _ B).
+  - apply uniqb_snoc; [exact U|]. intros; discriminate.
+Qed.
+Lemma l_rem_keys a l : forall l', l_rem a l = inl l' ->
+  forall b, existsb (matches b) l' = true -> existsb (matches b) l = true.
+Proof.
+  induction l as [|n r IH]; intros l' E b X; [discriminate|]. cbn [l_rem] in E.
+  destruct (matches a n) eqn:M.
+  - destruct n as [k [|[|rc]]|m g k|i]; inversion E; subst; cbn [existsb] in *;
+      try (rewrite X; apply orb_true_r); try exact X.
+  - destruct (l_rem a r) as [r'|e]; [|discriminate]. inversion E; subst. cbn [existsb] in *.
+    apply orb_true_iff in X. destruct X as [X|X]; [rewrite X; reflexivity|].
+    rewrite (IH r' eq_refl b X). apply orb_true_r.
+Qed.
+Lemma uniqb_l_rem a l : forall l', l_rem a l = inl l' -> uniqb l = true -> uniqb l' = true.
+Proof.
+  induction l as [|n r IH]; intros l' E U; [discriminate|]. cbn [l_rem] in E.
+  cbn [uniqb] in U. apply andb_true_iff in U. destruct U as [Un Ur].
+  destruct (matches a n) eqn:M.
+  - destruct n as [k [|[|rc]]|m g k|i]; inversion E; subst; try exact Ur.
+    cbn [uniqb]. rewrite Un, Ur. reflexivity.
+  - destruct (l_rem a r) as [r'|e] eqn:R; [|discriminate]. inversion E; subst.
+    cbn [uniqb]. rewrite (IH r' eq_refl Ur), andb_true_r.
+    destruct n as [k rc| |]; try reflexivity. apply negb_true_iff. apply negb_true_iff in Un.
+    destruct (existsb (matches (AUser k)) r') eqn:X; [|reflexivity].
+    rewrite (l_rem_keys _ _ _ R _ X) in Un. discriminate.
+Qed.
+
+Lemma do_entry_uniq rm e H H' : uniqH H -> do_entry rm e H = inl H' -> uniqH H'.
+Proof.
+  destruct e as [o0 a]. intros U D o. destruct rm; cbn [do_entry] in D.
+  - destruct (l_rem a (H o0)) as [l|x] eqn:R; [|discriminate]. inversion D; subst.
+    unfold upd. destruct (obsv_eqb o o0); [apply (uniqb_l_rem _ _ _ R), U|apply U].
+  - inversion D; subst. unfold upd. destruct (obsv_eqb o o0); [apply uniqb_l_add, U|apply U].
+Qed.
+Lemma exec_uniq rm es : forall H L H' L' e, uniqH H -> exec rm es H L = (H', L', e) -> uniqH H'.
+Proof.
+  induction es as [|a es IH]; intros H L H' L' e U E; cbn [exec] in E.
+  - inversion E; subst. exact U.
+  - destruct (do_entry rm a H) as [H1|x] eqn:D.
+    + apply (IH _ _ _ _ _ (do_entry_uniq _ _ _ _ U D) E).
+    + inversion E; subst. exact U.
+Qed.
+Lemma undo_uniq rm es H H' e : uniqH H -> undo rm es H = (H', e) -> uniqH H'.
+Proof.
+  intros U X. rewrite (undo_exec rm es H []) in X.
+  destruct (exec (negb rm) es H []) as [[H1 L1] e1] eqn:E. inversion X; subst.
+  apply (exec_uniq _ _ _ _ _ _ _ U E).
+Qed.
+Lemma walk_outer_uniq h k rm g x H H' e : uniqH H -> walk_outer h k rm g x H = (H', e) -> uniqH H'.
+Proof.
+  intros U W. unfold walk_outer in W. destruct (plan h k rm g x) as [es sf].
+  destruct (exec rm es H []) as [[H1 L] e0] eqn:E. pose proof (exec_uniq _ _ _ _ _ _ _ U E) as U1.
+  destruct (undo rm (rev L) H1) as [H2 e2] eqn:X. pose proof (undo_uniq _ _ _ _ _ U1 X) as U2.
+  destruct e0 as [y|]; [|destruct sf]; try (destruct e2; inversion W; subst; exact U2).
+  inversion W; subst. exact U1.
+Qed.
+Lemma reapply_uniq h k rm x : forall applied H H' e, uniqH H -> reapply h k rm applied x H = (H', e) -> uniqH H'.
+Proof.
+  induction applied as [|g r IH]; intros H H' e U R; cbn [reapply] in R.
+  - inversion R; subst. exact U.
+  - destruct (walk_outer h k rm g x H) as [H1 [y|]] eqn:W; pose proof (walk_outer_uniq _ _ _ _ _ _ _ _ U W) as U1.
+    + inversion R; subst. exact U1.
+    + apply (IH _ _ _ U1 R).
+Qed.
+Lemma apply_loop_uniq h k rm x : forall gs H applied H' e, uniqH H ->
+  apply_loop h k rm gs x H applied = (H', e) -> uniqH H'.
+Proof.
+  induction gs as [|g gs IH]; intros H applied H' e U A; cbn [apply_loop] in A.
+  - inversion A; subst. exact U.
+  - destruct (walk_outer h k rm g x H) as [H1 [y|]] eqn:W; pose proof (walk_outer_uniq _ _ _ _ _ _ _ _ U W) as U1.
+    + destruct (reapply h k (negb rm) applied x H1) as [H2 e2] eqn:R.
+      pose proof (reapply_uniq _ _ _ _ _ _ _ _ U1 R) as U2. destruct e2; inversion A; subst; exact U2.
+    + apply (IH _ _ _ _ U1 A).
+Qed.
+Lemma step_uniq h s o s' ob : uniqH (st_hooks s) -> step h s o = (s', ob) -> uniqH (st_hooks s').
+Proof.
+  intros U S. destruct o as [x hd dp gs|x hd dp gs|o f|hd|t]; cbn [step] in S.
+  - destruct (apply_observers _ _ _ _ _ _) as [H e] eqn:A. inversion S; subst.
+    apply (apply_loop_uniq _ _ _ _ _ _ _ _ _ U A).
+  - destruct (apply_observers _ _ _ _ _ _) as [H e] eqn:A. inversion S; subst.
+    apply (apply_loop_uniq _ _ _ _ _ _ _ _ _ U A).
+  - inversion S; subst. exact U.
+  - inversion S; subst. exact U.
+  - inversion S; subst. exact U.
+Qed.
+Lemma run_uniq h : forall ops s tr s', uniqH (st_hooks s) -> run h s ops = (tr, s') -> uniqH (st_hooks s').
+Proof.
+  induction ops as [|o ops IH]; intros s tr s' U R; cbn [run] in R.
+  - inversion R; subst. exact U.
+  - destruct (step h s o) as [s1 ob] eqn:S. destruct (run h s1 ops) as [tr1 s2] eqn:R1.
+    inversion R; subst. apply (IH _ _ _ (step_uniq _ _ _ _ _ U S) R1).
+Qed.
+
+(* ------------------------------------------------------------------ calls on a change *)
+Definition ncalls (k : key) (l : list key) : nat := length (filter (key_eqb k) l).
+Lemma ncalls_app k l1 l2 : ncalls k (l1 ++ l2) = ncalls k l1 + ncalls k l2.
+Proof. unfold ncalls. rewrite filter_app, app_length. reflexivity. Qed.
+Lemma nomatch_cnt a l : existsb (matches a) l = false -> cnt (CK a) l = 0.
+Proof.
+  induction l as [|n r IH]; [reflexivity|]. cbn [existsb cnt]. intros E.
+  apply orb_false_iff in E. destruct E as [M E]. rewrite (weight_nomatch _ _ M), (IH E). reflexivity.
+Qed.
+Lemma key_eqb_refl k : key_eqb k k = true.
+Proof. apply key_eqb_spec. reflexivity. Qed.
+
+(* a change of o.f calls handler k exactly once if a user notifier of k is on the list (whatever its
+   reference count) and k's owner and target are alive, else not at all *)
+Lemma calls_count s l k : posb l = true -> uniqb l = true ->
+  ncalls k (calls_of s l) = if alive s k && (0 <? cnt (CK (AUser k)) l) then 1 else 0.
+Proof.
+  induction l as [|n r IH]; intros P U.
+  - cbn. rewrite andb_false_r. reflexivity.
+  - cbn [posb forallb] in P. apply andb_true_iff in P. destruct P as [Pn Pr].
+    cbn [uniqb] in U. apply andb_true_iff in U. destruct U as [Un Ur].
+    change (calls_of s (n :: r)) with
+      ((match n with NUser k' _ => if alive s k' then [k'] else [] | _ => [] end) ++ calls_of s r).
+    rewrite ncalls_app, (IH Pr Ur). cbn [cnt].
+    destruct n as [k' rc|m g k'|i].
+    + cbn [weight matches]. destruct (key_eqb k k') eqn:Q.
+      * apply key_eqb_spec in Q. subst k'. apply negb_true_iff in Un.
+        rewrite (nomatch_cnt _ _ Un). rewrite Nat.add_0_r.
+        replace (0 <? 0) with false by reflexivity. rewrite Pn, andb_false_r, andb_true_r.
+        destruct (alive s k); [|reflexivity].
+        unfold ncalls. cbn [filter]. rewrite key_eqb_refl. reflexivity.
+      * cbn [Nat.add]. destruct (alive s k'); cbn [ncalls filter]; unfold ncalls; cbn [filter]; rewrite ?Q; reflexivity.
+    + cbn [weight matches b2n]. reflexivity.
+    + cbn [weight]. reflexivity.
 Qed.
